@@ -255,3 +255,27 @@ CLAUSE = {
 WITNESSES.append(
     {'source': 'def inner(depth):\n    return depth + 1\n\n\ndef outer(depth):\n    return inner(depth=3) * depth\n\n\nprint(outer(depth=2))\n',
      'dictkeys': [], 'collide': [], 'features': ['witness:keyword-in-binding-scope']})
+
+
+def goto_chunk(cases):
+    """worker entry (stream kwgoto): what Script.goto answers on the keyword of each call, as
+    indices of the callee's parameters (-1 = something that is not a parameter of the def)"""
+    import os
+    import common
+    import jedi
+    os.makedirs(EMPTY_PROJECT, exist_ok=True)
+    project = jedi.Project(EMPTY_PROJECT)
+    out = []
+    for c in cases:
+        try:
+            ds = jedi.Script(c['source'], project=project).goto(c['line'], c['col'])
+        except Exception as e:
+            cls, site = common.exc_site(e)
+            out.append({'raised': '%s@%s' % (cls, site)})
+            continue
+        idx = []
+        for d in ds:
+            pos = [d.line, d.column]
+            idx.append(c['params'].index(pos) if pos in c['params'] else -1)
+        out.append({'goto': sorted(idx)})
+    return out
